@@ -157,7 +157,7 @@ func panicSite() string {
 // followUps: whatever a decoder ACCEPTED has to be usable: the operations a caller runs next on the loaded trie — proofs
 // for the first and the last block, path exports, an update, deletes, root — must not panic (errors are fine). The
 // results are not part of the op's output (oracle only).
-func followUps(i int, x *CaseResult, obsTags map[string]bool, what string, t *wmpt.WeightedMerkleTrie, input []byte) {
+func followUps(i int, x *CaseResult, what string, t *wmpt.WeightedMerkleTrie, input []byte) {
 	h := sha3sum(input)
 	k1 := append([]byte(nil), h...)
 	k3 := bytes.Repeat([]byte{0x11}, 32)
@@ -179,15 +179,6 @@ func followUps(i int, x *CaseResult, obsTags map[string]bool, what string, t *wm
 			f()
 		}()
 		if pv != nil {
-			if strings.Contains(site, "(*shortNode).") && strings.Contains(fmt.Sprint(pv), "nil pointer") {
-				// What HEAD does not satisfy (observation, notes/C15wmpt.md): Delete of a key whose path runs through a short node
-				// under a short node (accepted by the importers; the trie never builds it) removes the lower one and leaves the upper
-				// one without a child; Weight() / Serialize() then dereference it. (The other four follow-up panics found in round 3
-				// are fixed: 95fe15c, f270208, 527796b, acaed54.)
-				obsTags["obs:Delete-leaves-a-short-node-without-child-when-its-child-was-a-short-node"] = true
-				stop = true
-				return
-			}
 			x.Fails = append(x.Fails, fmt.Sprintf("op %d: %s accepted the input, then %s panicked on the loaded trie: %v (in %s)", i, what, name, pv, site))
 			stop = true
 		}
@@ -269,7 +260,7 @@ func runC15Wmpt(ops []string) CaseResult {
 				return "ok " + hx(h) + " " + hxOrDash(v)
 			})
 			if loaded != nil && strings.HasPrefix(out, "ok") {
-				followUps(i, &res, tags, "VerifyBlockProof", loaded, data)
+				followUps(i, &res, "VerifyBlockProof", loaded, data)
 			}
 		case "dtrie":
 			data := unhx(f[1])
@@ -290,7 +281,7 @@ func runC15Wmpt(ops []string) CaseResult {
 				return fmt.Sprintf("ok %x %d %s", t.Root(), t.Weight(), descNodeBytes(ser))
 			})
 			if loaded != nil && strings.HasPrefix(out, "ok") && loaded.GetRoot() != nil {
-				followUps(i, &res, tags, "Deserialize", loaded, data)
+				followUps(i, &res, "Deserialize", loaded, data)
 			}
 		default:
 			panic("unknown op " + op)
